@@ -555,3 +555,7 @@ ob("fen_board_loop_one_piece", "chess::verif_chess::fen::fen_board_loop_one_piec
    "slice verif_fen_board_loop (loop header included) on boards with one piece of any kind on any square: placement field == rank texts from rank 8 down to rank 1",
    _F11, tier="thorough", timeout=5400, complete=False, bounded_note="board restricted to one piece; per-rank contents are covered by fen_rank_*")
 OB_SLICES["fen_board_loop_one_piece"] = ["verif_fen_board_loop"]
+ob("native_position_command", "uci::verif_uci::native_position_command", ["C17", "C12"],
+   "TEST (native, concrete): whole command_position: refused FEN => error and no position left (also when one was loaded before); accepted FEN replaces it and `moves` are played on it; illegal / malformed moves are errors",
+   ["uci::command_position (whole function, concrete inputs)"], backend="native", complete=False, counts_as_proof=False,
+   bounded_note="concrete native run of the glue; not a proof")
